@@ -189,29 +189,49 @@ func (c *Ctx) checkRunReturns(fn *ssa.Function) {
 		c.bad(key, c.pos(fn.Pos()), fname(fn), "no call to Execute")
 		return
 	}
-	for _, r := range returnsOf(fn) {
-		if len(r.Results) != 1 {
-			continue
+	// the error branch of Execute must return a non-zero constant on every path
+	var errIf *ssa.If
+	for _, r := range *exec.Referrers() {
+		if b, ok := r.(*ssa.BinOp); ok && b.Op == token.NEQ && (isNilConst(b.X) || isNilConst(b.Y)) {
+			for _, rr := range *b.Referrers() {
+				if iff, ok := rr.(*ssa.If); ok {
+					errIf = iff
+				}
+			}
 		}
-		for _, leaf := range phiLeaves(r.Results[0]) {
-			k, ok := constInt(leaf)
-			if !ok {
-				c.undec(key, c.pos(r.Pos()), fname(fn), "exit status is not a constant")
+	}
+	if errIf == nil {
+		c.bad(key, c.pos(exec.Pos()), fname(fn), "the error returned by Execute is never tested: a failing command exits with status 0")
+		return
+	}
+	good := true
+	seen := map[*ssa.BasicBlock]bool{}
+	var walk func(b *ssa.BasicBlock)
+	walk = func(b *ssa.BasicBlock) {
+		if seen[b] {
+			return
+		}
+		seen[b] = true
+		for _, in := range b.Instrs {
+			if r, ok := in.(*ssa.Return); ok {
+				k, isK := constInt(r.Results[0])
+				if !isK || k == 0 {
+					good = false
+				}
 				return
 			}
-			_ = k
-		}
-	}
-	// error branch must return non-zero: find If on err != nil, returns dominated by its true successor
-	good := false
-	for _, r := range returnsOf(fn) {
-		if len(r.Results) == 1 {
-			if k, ok := constInt(r.Results[0]); ok && k != 0 {
-				good = true
+			if ci, ok := in.(ssa.CallInstruction); ok {
+				if _, isDefer := in.(*ssa.Defer); !isDefer && exitLike(ci) {
+					return
+				}
 			}
 		}
+		for _, s := range b.Succs {
+			walk(s)
+		}
 	}
-	c.check(good, key, c.pos(fn.Pos()), fname(fn), "run returns a non-zero status on failure", "run never returns a non-zero status")
+	walk(errIf.Block().Succs[0])
+	c.check(good, key, c.pos(exec.Pos()), fname(fn), "run returns a non-zero status on every path after a failed Execute", "after a failed Execute run can return status 0 (or a non-constant status): the process exits 0 although the command failed")
 }
 
 // ---------------------------------------------------------------------------
@@ -422,6 +442,11 @@ func (c *Ctx) errCovered(fn *ssa.Function, errIdx int, isValidatorCall func(*ssa
 			if call, ok := leaf.(*ssa.Call); ok && isValidatorCall(call) {
 				continue // returns the validator's verdict
 			}
+			if ex, ok := leaf.(*ssa.Extract); ok {
+				if call, ok := ex.Tuple.(*ssa.Call); ok && isValidatorCall(call) {
+					continue
+				}
+			}
 			if !isNilConst(leaf) && c.knownNonNil(leaf, r) {
 				continue // an error path
 			}
@@ -434,6 +459,13 @@ func (c *Ctx) errCovered(fn *ssa.Function, errIdx int, isValidatorCall func(*ssa
 				for _, ref := range *vc.Referrers() {
 					if b, ok := ref.(*ssa.BinOp); ok && (b.Op == token.NEQ || b.Op == token.EQL) {
 						covered = true
+					}
+					if ex, ok := ref.(*ssa.Extract); ok && isErrorType(ex.Type()) && ex.Referrers() != nil {
+						for _, r2 := range *ex.Referrers() {
+							if b, ok := r2.(*ssa.BinOp); ok && (b.Op == token.NEQ || b.Op == token.EQL) {
+								covered = true
+							}
+						}
 					}
 				}
 			}
@@ -482,9 +514,37 @@ func ruleValidate(c *Ctx) {
 		T := byName[tn]
 		vm := vts[T]
 		vfn := c.Prog.FuncValue(vm)
-		isV := func(call *ssa.Call) bool {
+		// constructors of T in its own package that themselves validate count as validators for the decoders
+		var validatingCtors []*ssa.Function
+		isV0 := func(call *ssa.Call) bool {
 			f := staticCallee(&call.Call)
 			return f != nil && (f == vfn || f.Origin() == vfn)
+		}
+		if spT := c.SSA[T.Obj().Pkg().Path()]; spT != nil {
+			for _, mem := range spT.Members {
+				f, ok := mem.(*ssa.Function)
+				if !ok || len(f.Blocks) == 0 {
+					continue
+				}
+				res := f.Signature.Results()
+				if res.Len() == 2 && isErrorType(res.At(1).Type()) && namedOf(res.At(0).Type()) == T {
+					if ok, _ := c.errCovered(f, 1, isV0); ok {
+						validatingCtors = append(validatingCtors, f)
+					}
+				}
+			}
+		}
+		isV := func(call *ssa.Call) bool {
+			if isV0(call) {
+				return true
+			}
+			f := staticCallee(&call.Call)
+			for _, vc := range validatingCtors {
+				if f == vc {
+					return true
+				}
+			}
+			return false
 		}
 		pkgPath := T.Obj().Pkg().Path()
 		sp := c.SSA[pkgPath]
@@ -714,6 +774,50 @@ func ruleReject(c *Ctx) {
 		c.check(good, "op.Instance.Validate|no durations", c.pos(fn.Pos()), fname(fn), "an instance without durations is refused", "Instance.Validate no longer refuses an instance with no values")
 	} else {
 		c.missing("op.Instance.Validate")
+	}
+	// every reader of a dynamic sign (flag, text metadata, YAML) refuses an unknown one
+	unkDyn := c.enumConsts("op", "DynamicSign")["UnknownDynamicSign"]
+	for _, fn := range c.srcFuncs() {
+		for _, ci := range callsTo(fn, "op.NewDynamicSign") {
+			call := ci.(*ssa.Call)
+			c.site(1)
+			good := false
+			// the result itself, or loads of a local that holds it (x := NewDynamicSign(s); ... &x)
+			var uses []ssa.Instruction
+			uses = append(uses, *call.Referrers()...)
+			for _, ref := range *call.Referrers() {
+				if st, ok := ref.(*ssa.Store); ok && st.Val == ssa.Value(call) {
+					if al, ok := st.Addr.(*ssa.Alloc); ok {
+						for _, r2 := range *al.Referrers() {
+							if ld, ok := r2.(*ssa.UnOp); ok && ld.Op == token.MUL && ld.Referrers() != nil {
+								uses = append(uses, *ld.Referrers()...)
+							}
+						}
+					}
+				}
+			}
+			for _, ref := range uses {
+				b, ok := ref.(*ssa.BinOp)
+				if !ok || (b.Op != token.EQL && b.Op != token.NEQ) {
+					continue
+				}
+				if k, ok := constInt(b.Y); !ok || k != unkDyn {
+					continue
+				}
+				for _, r2 := range *b.Referrers() {
+					if iff, ok := r2.(*ssa.If); ok {
+						bad, okb := iff.Block().Succs[0], iff.Block().Succs[1]
+						if b.Op == token.NEQ {
+							bad, okb = okb, bad
+						}
+						if allPathsReturnError(bad, okb) {
+							good = true
+						}
+					}
+				}
+			}
+			c.check(good, fname(fn)+" -> op.NewDynamicSign|unknown", c.pos(ci.Pos()), fname(fn), "an unknown dynamic sign is an error here", "the result of NewDynamicSign is not checked against UnknownDynamicSign here: an unknown dynamic (e.g. --velocity fff) is played with velocity 0, which turns every note-on into a note-off")
+		}
 	}
 	// DynamicSign: unknown string -> error in UnmarshalYAML
 	if fn := c.fn("op", "(*DynamicSign).UnmarshalYAML"); fn != nil {
@@ -1088,6 +1192,18 @@ func tarjan(nodes []*ssa.Function, adj map[*ssa.Function][]*ssa.Function) [][]*s
 	return out
 }
 
+// innermostLoop: the smallest natural loop containing b.
+func innermostLoop(b *ssa.BasicBlock) map[*ssa.BasicBlock]bool {
+	var best map[*ssa.BasicBlock]bool
+	for _, h := range b.Parent().Blocks {
+		l := naturalLoop(h)
+		if l != nil && l[b] && (best == nil || len(l) < len(best)) {
+			best = l
+		}
+	}
+	return best
+}
+
 // checkExtendsAcyclic: Map.validate (or a repo function it calls) walks `Extends` chains with a visited set and reports an error on a repeat.
 func (c *Ctx) checkExtendsAcyclic() {
 	v := c.fn("chord", "Map.validate")
@@ -1114,11 +1230,12 @@ func (c *Ctx) checkExtendsAcyclic() {
 				if _, isMap := lk.X.Type().Underlying().(*types.Map); !isMap {
 					continue
 				}
-				// same map updated in a loop
+				// same map updated inside the same (innermost) loop as the lookup: the visited set grows as the chain is walked
 				updated := false
 				readsExtends := false
+				walkLoop := innermostLoop(lk.Block())
 				allInstrs(fn, func(in2 ssa.Instruction) {
-					if mu, ok := in2.(*ssa.MapUpdate); ok && mu.Map == lk.X && inLoop(mu.Block()) {
+					if mu, ok := in2.(*ssa.MapUpdate); ok && mu.Map == lk.X && walkLoop != nil && walkLoop[mu.Block()] {
 						updated = true
 					}
 					if inLoop(in2.Block()) {
